@@ -305,6 +305,43 @@ fn ignore_include(ctx: &mut Ctx, rng: &mut Rng, dir: &Path) {
         src.push_str("`define INC `include \"ghost_m.svh\"\n`INC\nz9\n");
     }
     let cfg = Cfg { include_paths: vec![dir.to_path_buf()], ignore_include: true, ..Cfg::default() };
+    // the flag must be honoured by every entry point that takes it: the parse_* family forwards it
+    {
+        let _ = std::fs::write(dir.join("present.svh"), "module ghost_module; endmodule\n");
+        let which = rng.below(3);
+        let target = if rng.chance(1, 2) { "present.svh" } else { "absent.svh" };
+        let sv = format!("module a1; endmodule\n`include \"{}\"\nmodule b1; endmodule\n", target);
+        let top = dir.join("ptop.sv");
+        let _ = std::fs::write(&top, &sv);
+        let r = match which {
+            0 => parse_str(Gram::Sv, &sv, &top, &cfg),
+            1 => parse_file(Gram::Sv, &top, &cfg),
+            _ => parse_str(Gram::Sv, &sv, &top, &Cfg { allow_incomplete: true, ..cfg.clone() }),
+        };
+        ctx.count("ignore_include_parse_cases", 1);
+        let w = Obj::new().s("top", &sv).s("entry", ["parse_sv_str", "parse_sv", "parse_sv_str(incomplete)"][which]).s("target", target).done();
+        match r {
+            Err(_) => ctx.inconclusive("lib_panic"),
+            Ok(Err(e)) => {
+                let m = format!("ignore_include = true but {} fails with {:?}", ["parse_sv_str", "parse_sv", "parse_sv_str(incomplete)"][which], e);
+                ctx.violation("ignore-include-reads", "", &m, w);
+            }
+            Ok(Ok((t, _))) => {
+                let mut names = Vec::new();
+                for n in &t {
+                    if let sv_parser::RefNode::ModuleIdentifier(_) = n {
+                        names.push(t.get_str(vec![n.clone()]).unwrap_or("").trim().to_string());
+                    }
+                }
+                if names.iter().any(|n| n == "ghost_module") || !names.iter().any(|n| n == "a1") || !names.iter().any(|n| n == "b1") {
+                    let m = format!("ignore_include = true but the tree has modules {:?} (the included file was spliced in)", names);
+                    ctx.violation("ignore-include-tokens", "", &m, w);
+                } else {
+                    ctx.count("ignore_include_parse_agree", 1);
+                }
+            }
+        }
+    }
     let r = pp_str(&src, &dir.join("top.sv"), &cfg);
     ctx.count("ignore_include_cases", 1);
     let witness = |d: &str| Obj::new().s("top", &src).s("detail", d).done();
